@@ -23,7 +23,9 @@ SameIdent(a, b) == a.base = b.base          \* rustc's identity: r#foo is foo
 SameText(a, b)  == a = b                    \* the macro's identity: string comparison
 
 \* ---- the pattern alphabet (property C16 + the interaction symbols of DESIGN 6)
-PlainSyms == {"id", "mut", "ref", "at", "raw", "fnname", "fnname_", "rawfn", "gnext", "gprev", "ugnext", "ugprev"}
+\* (implname: a parameter called `__impl` - the name of the parameter the macro inserts for delegation targets, i.e. for the functions of
+\*  an entraited impl block)
+PlainSyms == {"id", "mut", "ref", "at", "raw", "fnname", "fnname_", "rawfn", "gnext", "gprev", "ugnext", "ugprev", "implname"}
 \* (tsmut / stref / tsat: a single inner binding that carries a binding mode or a subpattern: `N(mut q)`, `S { v: ref q }`, `N(q @ _)`;
 \*  tsraw: a single inner binding that is a raw keyword identifier: `N(r#match)`)
 DestrSyms == {"wild", "tup2", "tup0", "ts1", "ts1w", "st1", "sts", "refp", "tsu", "nest2", "liftfn", "liftfn_", "tsmut", "stref", "tsat", "tsraw"}
@@ -43,6 +45,7 @@ Binds(s, i, f) ==
     [] s = "gprev"   -> << Nm("arg" \o Idx(i - 2)) >>
     [] s = "ugnext"  -> << UNm("_arg" \o Idx(i)) >>
     [] s = "ugprev"  -> << UNm("_arg" \o Idx(i - 2)) >>
+    [] s = "implname" -> << UNm("__impl") >>
     [] s \in {"wild", "tup0"} -> << >>
     [] s = "tup2"    -> << Nm("x" \o Idx(i)), Nm("y" \o Idx(i)) >>
     [] s = "nest2"   -> << Nm("x" \o Idx(i)), Nm("y" \o Idx(i)) >>
@@ -55,7 +58,7 @@ Binds(s, i, f) ==
 \* Rust text of the parameter (pattern : type)
 PText(s, i, f) ==
   LET b == Binds(s, i, f) IN
-  CASE s \in {"id", "raw", "fnname", "fnname_", "rawfn", "gnext", "gprev", "ugnext", "ugprev"}
+  CASE s \in {"id", "raw", "fnname", "fnname_", "rawfn", "gnext", "gprev", "ugnext", "ugprev", "implname"}
                      -> NText(b[1]) \o ": i32"
     [] s = "mut"     -> "mut " \o NText(b[1]) \o ": i32"
     [] s = "ref"     -> "ref " \o NText(b[1]) \o ": i32"
@@ -84,7 +87,7 @@ Arity(s) == CASE s \in {"tup2", "nest2"} -> 2 [] s = "tup0" -> 0 [] OTHER -> 1
 \* an unbound leaf (`_`) is reported as 0 by the logging body
 BExpr(s, i, f) ==
   LET b == Binds(s, i, f) IN
-  CASE s \in {"id", "mut", "raw", "fnname", "fnname_", "rawfn", "gnext", "gprev", "ugnext", "ugprev"} -> << NText(b[1]) >>
+  CASE s \in {"id", "mut", "raw", "fnname", "fnname_", "rawfn", "gnext", "gprev", "ugnext", "ugprev", "implname"} -> << NText(b[1]) >>
     [] s \in {"ref", "stref"}  -> << "*" \o NText(b[1]) >>
     [] s = "at"   -> << NText(b[1]) \o ".0" >>
     [] s \in {"wild"} -> << "0" >>
@@ -141,20 +144,24 @@ AllIdent(st) == \A i \in DOMAIN st : st[i].ident
 \* stage 2 (lift_inner_pat_idents): exactly one counted binding -> replace the pattern by it
 Stage2(st) == [i \in DOMAIN st |->
    IF ~st[i].ident /\ st[i].nb = 1 THEN [st[i] EXCEPT !.ident = TRUE, !.name = st[i].first, !.deco = ""] ELSE st[i]]
+\* the parameters the macro itself inserts in front of the user's (typed ones; the `self` receiver is not one)
+InsertedNames(rk) == IF rk = "self" THEN << >> ELSE << UNm("__impl") >>
 \* stage 3 (autogenerate_for_non_idents): `arg<index>` with `_` prefixes until not taken.
 \* The taken-set holds un-rawed identifier strings.
 TakenOf(st) == { st[i].name.base : i \in { j \in DOMAIN st : st[j].ident } }
 RECURSIVE GenName(_, _, _)
 GenName(idx, us, taken) ==
   LET n == us \o "arg" \o ToString(idx) IN IF n \in taken THEN GenName(idx, "_" \o us, taken) ELSE n
-Stage3Step(st, i, taken) ==
+\* (the index counts the typed parameters of the converted signature: a receiver does not count, a parameter the macro inserted
+\*  in front - off = 1 for the functions of an impl block - does)
+Stage3Step(st, i, taken, off) ==
   IF st[i].ident THEN [st |-> st, taken |-> taken]
-  ELSE LET n == GenName(i - 1, "", taken) IN
+  ELSE LET n == GenName(i - 1 + off, "", taken) IN
        [st |-> [st EXCEPT ![i] = [@ EXCEPT !.ident = TRUE, !.name = Nm(n), !.deco = ""]], taken |-> taken \cup {n}]
-RECURSIVE Stage3(_, _, _)
-Stage3(st, i, taken) ==
+RECURSIVE Stage3(_, _, _, _)
+Stage3(st, i, taken, off) ==
   IF i > Len(st) THEN st
-  ELSE LET r == Stage3Step(st, i, taken) IN Stage3(r.st, i + 1, r.taken)
+  ELSE LET r == Stage3Step(st, i, taken, off) IN Stage3(r.st, i + 1, r.taken, off)
 \* stage 4 (fix_ident_conflicts, runs last): a parameter that is the function's identifier (raw or not) gets
 \* `_` appended until the name is free
 RECURSIVE Suffixed(_, _)
@@ -169,12 +176,31 @@ Stage4(st, i, taken, f) ==
   IF i > Len(st) THEN st
   ELSE LET r == Stage4Step(st, i, taken, f) IN Stage4(r.st, i + 1, r.taken, f)
 
+\* stage 5 (second loop of fix_ident_conflicts, since a "fix:" commit): for a delegation target (rk "static": `#[entrait] impl`,
+\* rk "dyn": `#[entrait(ref)] impl`) the macro inserts its own parameter `__impl` in front of the user's; a parameter of the user's
+\* with that name gives way (`_` appended until free).  rk "self" (function / module inputs): nothing is inserted, nothing renamed.
+Stage5Step(st, i, taken, rk) ==
+  IF rk # "self" /\ st[i].ident /\ st[i].name.base = "__impl"
+  THEN LET n == Suffixed("__impl_", taken) IN
+       [st |-> [st EXCEPT ![i] = [@ EXCEPT !.name = UNm(n)]], taken |-> taken \cup {n}]
+  ELSE [st |-> st, taken |-> taken]
+RECURSIVE Stage5(_, _, _, _)
+Stage5(st, i, taken, rk) ==
+  IF i > Len(st) THEN st
+  ELSE LET r == Stage5Step(st, i, taken, rk) IN Stage5(r.st, i + 1, r.taken, rk)
+RECURSIVE Stage4Taken(_, _, _, _)
+Stage4Taken(st, i, taken, f) ==
+  IF i > Len(st) THEN taken
+  ELSE LET r == Stage4Step(st, i, taken, f) IN Stage4Taken(r.st, i + 1, r.taken, f)
+
 \* the whole conversion as a function (what the trace specification and the case dump use)
-Final(l, f) ==
+FinalK(l, f, rk) ==
   LET s1 == Stage1(Init0(l, f))
       s2 == IF AllIdent(s1) THEN s1 ELSE Stage2(s1)
-      s3 == IF AllIdent(s2) THEN s2 ELSE Stage3(s2, 1, TakenOf(s2))
-  IN [panic |-> FALSE, st |-> Stage4(s3, 1, TakenOf(s3), f)]
+      s3 == IF AllIdent(s2) THEN s2 ELSE Stage3(s2, 1, TakenOf(s2), Len(InsertedNames(rk)))
+      s4 == Stage4(s3, 1, TakenOf(s3), f)
+  IN [panic |-> FALSE, st |-> Stage5(s4, 1, Stage4Taken(s3, 1, TakenOf(s3), f), rk)]
+Final(l, f) == FinalK(l, f, "self")
 
 Names(st) == [i \in DOMAIN st |-> st[i].name]
 Decos(st) == [i \in DOMAIN st |-> st[i].deco]
